@@ -169,7 +169,44 @@ BoundaryRanges == <<
            <<98, 121, 116, 101, 115, 61, 49, 56, 52, 52, 54, 55, 52, 52, 48, 55, 51, 55, 48, 57, 53, 53, 49, 54, 49, 54, 45>>,
            <<98, 121, 116, 101, 115, 61, 57, 57, 57, 57, 57, 57, 57, 57, 57, 57, 57, 57, 57, 57, 57, 57, 57, 57, 57, 57, 45>>>>
 \* bytes=0-2147483647, bytes=0-2147483648, bytes=0-9223372036854775807, bytes=3-9223372036854775807, bytes=0-9223372036854775808, bytes=0-18446744073709551616, bytes=0-99999999999999999999, bytes=2147483647-, bytes=2147483648-, bytes=9223372036854775807-, bytes=9223372036854775808-, bytes=9223372036854775807-9223372036854775807, bytes=1-9223372036854775806, bytes=18446744073709551616-, bytes=99999999999999999999-
-Ranges == BasicRanges \o BoundaryRanges
+\* degenerate headers: a bare dash, empty specs, only commas, blanks around the dash, suffix ranges, several specs one
+\* of which is degenerate, a missing or lone unit (class "other" as well; always exported like the boundary ones)
+DegenerateRanges == <<
+           <<98, 121, 116, 101, 115, 61, 45>>,
+           <<98, 121, 116, 101, 115, 61, 32, 45, 32>>,
+           <<98, 121, 116, 101, 115, 61, 48, 45, 49, 44, 45>>,
+           <<98, 121, 116, 101, 115, 61, 44, 45, 44>>,
+           <<98, 121, 116, 101, 115, 61, 45, 44, 48, 45, 49>>,
+           <<98, 121, 116, 101, 115, 61, 49, 45, 44, 45>>,
+           <<98, 121, 116, 101, 115, 61, 9, 45, 9>>,
+           <<98, 121, 116, 101, 115, 61>>,
+           <<98, 121, 116, 101, 115, 61, 44>>,
+           <<98, 121, 116, 101, 115, 61, 44, 44>>,
+           <<98, 121, 116, 101, 115, 61, 32>>,
+           <<98, 121, 116, 101, 115, 61, 45, 45>>,
+           <<98, 121, 116, 101, 115, 61, 45, 45, 53>>,
+           <<98, 121, 116, 101, 115, 61, 45, 53>>,
+           <<98, 121, 116, 101, 115, 61, 45, 32, 53>>,
+           <<98, 121, 116, 101, 115, 61, 48, 45, 49, 44, 45, 53>>,
+           <<98, 121, 116, 101, 115, 61, 32, 48, 32, 45, 32, 49, 32>>,
+           <<98, 121, 116, 101, 115, 61, 48, 32, 45, 49>>,
+           <<98, 121, 116, 101, 115, 61, 48, 45, 49, 44, 32, 50, 45, 51>>,
+           <<98, 121, 116, 101, 115, 61, 48, 45, 49, 44>>,
+           <<98, 121, 116, 101, 115, 61, 44, 48, 45, 49>>,
+           <<98, 121, 116, 101, 115, 61, 48, 45, 49, 44, 120>>,
+           <<98, 121, 116, 101, 115, 61, 48, 45, 45, 49>>,
+           <<98, 121, 116, 101, 115, 61, 48, 45, 49, 45, 50>>,
+           <<98, 121, 116, 101, 115, 61, 48>>,
+           <<44>>,
+           <<45>>,
+           <<48, 45>>,
+           <<61, 48, 45, 49>>,
+           <<98, 121, 116, 101, 115>>,
+           <<98, 121, 116, 101, 115, 32, 48, 45, 49>>,
+           <<66, 121, 116, 101, 115, 61, 48, 45, 49>>,
+           <<105, 116, 101, 109, 115, 61, 48, 45, 49>>>>
+\* bytes=- | bytes= -  | bytes=0-1,- | bytes=,-, | bytes=-,0-1 | bytes=1-,- | bytes=<TAB>-<TAB> | bytes= | bytes=, | bytes=,, | bytes=  | bytes=-- | bytes=--5 | bytes=-5 | bytes=- 5 | bytes=0-1,-5 | bytes= 0 - 1  | bytes=0 -1 | bytes=0-1, 2-3 | bytes=0-1, | bytes=,0-1 | bytes=0-1,x | bytes=0--1 | bytes=0-1-2 | bytes=0 | , | - | 0- | =0-1 | bytes | bytes 0-1 | Bytes=0-1 | items=0-1
+Ranges == BasicRanges \o BoundaryRanges \o DegenerateRanges
 CRanges == <<<<>>,
             <<48, 45, 48>>,
             <<48, 45, 50>>,
